@@ -437,7 +437,9 @@ def explore_config(ctx, item):
     cfg, depth = item
     h = Harness(*cfg)
     name = f'{cfg[0]}{"x".join(str(d) for d in cfg[1])}{"w" if cfg[2] else "c"}{len(cfg[3])}'
-    r = hbfs.explore(ctx, h, name, max_depth=depth, procs=1)
+    # a few one-agent configurations are also explored with the model deep-copied in every state
+    clone = len(cfg[3]) == 1 and cfg[2] in (False, True) and list(cfg[1]) in ([3, 2], [1.5, 1, 0], [3, 1, 3], [3])
+    r = hbfs.explore(ctx, h, name, max_depth=depth, procs=1, clone=clone)
     r['fixpoint_parts'] = 1 if r.get('fixpoint') else 0
     ctx.leg('one_agent' if len(cfg[3]) == 1 else 'two_agents', **r)
     if len(cfg[3]) == 1 and not r.get('fixpoint') and not r.get('aborted'):
